@@ -17,7 +17,7 @@ use std::sync::atomic::{AtomicUsize, Ordering};
 use std::sync::mpsc::{channel, Receiver, Sender};
 use std::sync::Arc;
 
-use chrono::{DateTime, Local};
+use chrono::{DateTime, FixedOffset, Local};
 use console::Term;
 use crossbeam_utils::thread;
 use indexmap::IndexMap;
@@ -1336,8 +1336,12 @@ pub fn write_report_with_timestamp(
         (res.0 + count, res.1 + g.file_len * count as u64)
     });
 
+    // The offset from UTC is written to the report in hours and minutes. An offset with seconds
+    // (some custom or historical time zones) would not be read back as the same instant.
+    let offset_secs = now.offset().local_minus_utc();
+    let offset = FixedOffset::east_opt(offset_secs - offset_secs % 60).unwrap_or(*now.offset());
     let header = ReportHeader {
-        timestamp: DateTime::from_naive_utc_and_offset(now.naive_utc(), *now.offset()),
+        timestamp: now.with_timezone(&offset),
         version: env!("CARGO_PKG_VERSION").to_owned(),
         command: args_os().map(Arg::from).collect(),
         base_dir: config.base_dir.clone(),
